@@ -101,6 +101,32 @@ Theorem c08_spec_plain_references_terminate : forall o own names fuel name idx,
 Proof. exact spec_plain_references_terminate. Qed.
 Print Assumptions c08_spec_plain_references_terminate.
 
+(* an error made out of an absorbed cyclic error keeps the mark, and a default that absorbs such an
+   error gives a flagged value: the flag "the per-call cache may show" survives the error operator *)
+Theorem c08_spec_error_operator_keeps_mark : forall o dv l r sep root st path m1 msg m3,
+  exp_s o dv l root st = Ok (path, m1) -> path <> ""%string ->
+  ref_eval_s o dv root st (parse_path path sep (p_maxIdx (eo_p o)) (p_numKeys (eo_p o)) (p_escape (eo_p o))) sep = Err ECyclic "" ->
+  exp_s o dv r root st = Ok (msg, m3) ->
+  exists pe, exp_s o dv (EErr l r sep) root st = Err EOther pe /\ err_marked pe = true.
+Proof. exact spec_error_operator_keeps_mark. Qed.
+Print Assumptions c08_spec_error_operator_keeps_mark.
+
+Theorem c08_spec_default_absorbs_marked : forall o dv l r sep root st path m1 e pe v m,
+  exp_s o dv l root st = Ok (path, m1) -> path <> ""%string ->
+  ref_eval_s o dv root st (parse_path path sep (p_maxIdx (eo_p o)) (p_numKeys (eo_p o)) (p_escape (eo_p o))) sep = Err e pe ->
+  cyc_err e pe = true ->
+  exp_s o dv r root st = Ok (v, m) ->
+  exp_s o dv (EDefault l r sep) root st = Ok (v, true).
+Proof. exact spec_default_absorbs_marked. Qed.
+Print Assumptions c08_spec_default_absorbs_marked.
+
+Theorem c08_spec_masked_cycle_example :
+  spec_string demo_opts 60 masked_root "a" (-1) = Ok ("d", true)
+  /\ spec_string demo_opts 60 masked_root "b" (-1) = Ok ("d", true)
+  /\ spec_string demo_opts 60 masked_root "z" (-1) = Ok ("d", true).
+Proof. exact spec_masked_cycle. Qed.
+Print Assumptions c08_spec_masked_cycle_example.
+
 Theorem c08_spec_examples :
   spec_string demo_opts 60 demo_root "twice" (-1) = Ok ("x-x", false)
   /\ spec_string demo_opts 60 demo_root "diamond" (-1) = Ok ("x1x2", false)
@@ -145,3 +171,42 @@ Theorem c08_examples :
   /\ read_string demo_opts 60 demo_root "saved" (-1) = Ok "dflt".
 Proof. exact demo_reads. Qed.
 Print Assumptions c08_examples.
+
+(* REFINEMENT on the reference fragment: the model of the implementation's bookkeeping (VarEval.v:
+   sets of active names that grow within a scope, scopes per step of a path walk) computes what
+   the specification (SpecEval.v: a stack of the names being evaluated) says.  For the tree that
+   is read and Env configs made of plain references - any shape: cyclic, dangling, into lists,
+   at containers or at other references, leading from one tree into another - read without
+   resolvers, a String read by the two evaluators gives the same value, or an error of the same
+   reason, once the fuel exceeds the number of references ([names] lists the names of all the
+   references; the marker of the bookkeeping is none of them). *)
+From Ucfg Require Import ProofsRefine.
+Theorem c08_model_refines_specification_on_references : forall o own names fuel name idx,
+  eo_res o = [] -> forallb (refs_only (eo_ftext o) names) (own :: eo_envs o) = true ->
+  existsb (String.eqb cyc_marker) names = false ->
+  (List.length names < fuel)%nat ->
+  agree (read_string o fuel own name idx) (spec_string o fuel own name idx).
+Proof. exact model_refines_specification_on_references. Qed.
+Print Assumptions c08_model_refines_specification_on_references.
+
+(* the premises are satisfiable: the tree of the termination example (a cycle, a dangling
+   reference, a reference into a list, a chain, a reference that leads through one Env config into
+   another) - every read of it agrees *)
+Example c08_refinement_example :
+  let po := {| p_sep := "."; p_maxIdx := 1024; p_numKeys := false; p_escape := false |} in
+  let e1 := VSub [("s", ("s", VRef [FName "u"] ".")); ("v", ("v", VStr "env1"))] None in
+  let e2 := VSub [("u", ("u", VSub [("inner", ("inner", VRef [FName "v"] "."))] None)); ("v", ("v", VStr "env2"))] None in
+  let o := {| eo_p := po; eo_envs := [e1; e2]; eo_res := []; eo_noparse := false; eo_nocomma := false;
+              eo_n := {| n_p := po; n_varexp := true; n_m := {| m_h := 0%N; m_ft := None |} |};
+              eo_ftext := [] |} in
+  let root := VSub [("a", ("a", VRef [FName "b"] "."));
+                    ("b", ("b", VRef [FName "a"] "."));
+                    ("c", ("c", VRef [FName "nowhere"] "."));
+                    ("d", ("d", VRef [FName "l"; FIdx 1] "."));
+                    ("e", ("e", VRef [FName "d"] "."));
+                    ("l", ("l", VSub [] (Some [("0", VInt 1); ("1", VStr "one")])));
+                    ("x", ("x", VRef [FName "s"; FName "inner"] "."))] None in
+  forall fuel name idx, (8 < fuel)%nat ->
+    agree (read_string o fuel root name idx) (spec_string o fuel root name idx).
+Proof. exact refinement_example. Qed.
+Print Assumptions c08_refinement_example.
